@@ -93,9 +93,10 @@ def runner(rep, tier, seed, replay):
         judge(rep, c["scenario"], c["text"], res)
         rep.cov["evaluations"] = 1
         return rep.finish(rule="replay of one recorded scenario")
-    for cfg in (["MCPipeline_3", "MCPipeline_3e", "MCPipeline_cap", "MCPipeline_capE", "MCPipeline_capE2"] if tier == "quick"
+    for cfg in (["MCPipeline_3", "MCPipeline_3e", "MCPipeline_cap", "MCPipeline_capE", "MCPipeline_capE2", "MCPipeline_here",
+                 "MCPipeline_here1", "MCPipeline_hereE"] if tier == "quick"
                 else ["MCPipeline_3", "MCPipeline_3e", "MCPipeline_4", "MCPipeline_4e", "MCPipeline_cap", "MCPipeline_capE", "MCPipeline_capE2",
-                      "MCPipeline_f3"]):
+                      "MCPipeline_here", "MCPipeline_here1", "MCPipeline_hereE", "MCPipeline_f3"]):
         r = run_tlc("MCPipeline", cfg, timeout=3000)
         if r.violation:
             raise ToolError("Pipeline model violates C02 at the design level (%s):\n%s" % (cfg, r.violation[:2500]))
@@ -107,6 +108,12 @@ def runner(rep, tier, seed, replay):
     rep.add_tlc(rl)
     if not rl.violation or "Termination" not in rl.violation:
         raise ToolError("negative control failed: the sequential capture read terminates in the model")
+    # negative control: a here-string whose reader exits without reading kills a shell that writes with SIGPIPE at its default
+    # disposition (core.rs as pinned)
+    rh = run_tlc("MCPipeline", "MCPipeline_hereE_legacy", coverage=False)
+    rep.add_tlc(rh)
+    if not rh.violation or "ShellAlive" not in rh.violation:
+        raise ToolError("negative control failed: the here-string writer survives EPIPE with SIGPIPE at its default disposition")
     scen = []
     r = run_tlc("MCPipeScen", "MCPipeScen_q" if tier == "quick" else "MCPipeScen_t", on_replay=scen.append, keep_replays=False, timeout=1800)
     rep.add_tlc(r)
@@ -132,6 +139,33 @@ def runner(rep, tier, seed, replay):
         judge(rep, s, c["text"], res)
         if rep.cov["evaluations"] % 499 == 1:
             rep.sample({"line": c["text"], "expected_status": s["status"], "exact_delivery": s["exact"]})
+    # here-string scenarios (spec/Pipeline.tla: MkHere / HereWrite / CHere): reader consumes / exits without reading, text below
+    # and above one pipe buffer, the stage alone and as the last stage of a pipeline; a marker command must run afterwards
+    hs = []
+    for size in (3, 100000):
+        for reader in ("cons", "none"):
+            for shape in ("only", "last"):
+                text = "h" * size
+                stage = "vst s1 mode=%s <<< %s" % (reader, text)
+                line = (stage if shape == "only" else "vst s0 mode=prod,n=1000 | " + stage) + " ; vmk 9 0 $?"
+                hs.append((size, reader, shape, line))
+    hres = run_cases([{"entry": "c", "text": h[3], "timeout": 60, "want_files": False} for h in hs])
+    for (size, reader, shape, line), res in zip(hs, hres):
+        rep.cov["evaluations"] += 1
+        feat = {"n": 1 if shape == "only" else 2, "kinds": ["here", reader], "payload": size, "exit": 0}
+        case = {"scenario": {"here": True, "size": size, "reader": reader, "shape": shape}, "text": line[:300], "status": res.get("status"),
+                "stderr": res.get("stderr", "")[-300:]}
+        mk = [r for r in res.get("log", []) if r.get("h") == "mk" and r.get("id") == "9"]
+        ends = [r for r in res.get("log", []) if r.get("h") == "st" and r.get("id") == "s1" and r.get("ev") == "end"]
+        if res.get("timed_out"):
+            rep.violation("hang/here", "here-string line did not terminate (%s reader, %d bytes, %s)" % (reader, size, shape), case, feat)
+        elif res.get("status") is None or res["status"] < 0 or len(mk) != 1:
+            rep.violation("shell-died/here", "after a here-string of %d bytes with a reader that %s the shell did not run the next command "
+                          "(status %s)" % (size, "reads" if reader == "cons" else "exits without reading", res.get("status")), case, feat)
+        elif mk[0].get("argv") != ["0"]:
+            rep.violation("status/here", "status after the here-string command was %s" % mk[0].get("argv"), case, feat)
+        elif reader == "cons" and (len(ends) != 1 or ends[0].get("nread") != size + 1):
+            rep.violation("delivery/here", "the reader of a %d byte here-string received %s" % (size, ends), case, feat)
     # (B) strace sample validated against the kernel descriptor model
     sample = rnd.sample(pick, min(len(pick), 25 if tier == "quick" else 200))
     runs = [c08.run_traced("vmk 0 0\n%s\nvmk 1 0\n" % render(s), "c02") for s in sample]
